@@ -298,6 +298,14 @@ ReturnOK(RT, DA, ka) ==
 (*   v       variants: which of n arguments is the one described, whether the callee is a head, has a     *)
 (*           body before / after its caller, is `pub` or `extern`; whether an array length is written    *)
 (*           as a number or as a named constant of that value (`[N3]i32` IS `[3]i32` when N3 = 3).      *)
+\* Places reached THROUGH A POINTER STORED IN AN ELEMENT (`rows[i][j]` with rows: [2]&[2]T, `nodes[i].x` with nodes: [2]&In,
+\* `o.rows[i][j]`): features.md describes the automatic dereference of pointer VARIABLES and parameters only.  Whether a
+\* well-typed assignment through such a path is accepted is therefore unconstrained (the pinned code rejects it with E504);
+\* an ill-typed one is rejected like any other, E504 ("conflicting types") being a matching code for every such mismatch.
+StoredPointerPaths == {b \o ":" \o sh : b \in {"v", "p"}, sh \in {"pelem.elem", "pelem.mem", "mem.pelem.elem"}}
+AssignPlaceOK(c) == LET v == AssignOK(c.b, c.kb, c.a, c.ka)
+                    IN IF c.op \notin StoredPointerPaths THEN v
+                       ELSE IF v.ok THEN Unc ELSE Rej(v.codes \cup {504})
 OperandExcess(c) == Excess(c.a, c.ka) \/ (c.ctx \in {"bin", "cmp"} /\ Excess(c.b, c.kb))
 Verdict(c) ==
     CASE c.ctx = "bin"    -> IF OperandExcess(c) THEN Rej({538, 550, 551})
@@ -307,7 +315,8 @@ Verdict(c) ==
       [] c.ctx = "un"     -> IF OperandExcess(c) THEN Rej({538, 550}) ELSE UnResult(c.op, ExprType(c.a, c.ka))
       [] c.ctx = "as"     -> IF OperandExcess(c) THEN Rej({538, 552}) ELSE CastOK(ExprType(c.a, c.ka), c.b)
       [] c.ctx = "cast"   -> IF OperandExcess(c) THEN Rej({538, 553}) ELSE BitCastOK(ExprType(c.a, c.ka), c.b)
-      [] c.ctx \in {"assign", "assignp"} -> AssignOK(c.b, c.kb, c.a, c.ka)
+      [] c.ctx = "assign" -> AssignOK(c.b, c.kb, c.a, c.ka)
+      [] c.ctx = "assignp" -> AssignPlaceOK(c)
       [] c.ctx = "init"   -> InitOK(c.b, c.a, c.ka)
       [] c.ctx = "member" -> MemberOK(c.b, c.a, c.ka)
       [] c.ctx = "const"  -> ConstOK(c.b, c.a)
